@@ -102,6 +102,9 @@ func Run(p Property, opt Options) int {
 	if opt.MaxReplays <= 0 {
 		opt.MaxReplays = 20
 	}
+	if mw, ok := p.(interface{ MaxWorkers() int }); ok && mw.MaxWorkers() < opt.Workers {
+		opt.Workers = mw.MaxWorkers()
+	}
 	if pre, ok := p.(Prelude); ok {
 		if err := pre.Prelude(); err != nil {
 			fmt.Printf("HARNESS-ERROR property=%s prelude (reference self-validation) failed: %v\n", id, err)
